@@ -31,8 +31,8 @@
 EXTENDS Machine, Json, IOUtils
 
 Trace == ndJsonDeserialize(IOEnv.OBS)
-VARIABLES l, ri, ph, s, steps, evals, drifts
-vars == <<l, ri, ph, s, steps, evals, drifts>>
+VARIABLES l, ri, ph, s, steps, evals, drifts, cov
+vars == <<l, ri, ph, s, steps, evals, drifts, cov>>
 
 RECURSIVE Mentions(_, _)
 Mentions(t, nm) == (t.k # "c" /\ t.v = nm) \/ \E i \in 1..Len(t.kids) : Mentions(t.kids[i], nm)
@@ -67,7 +67,15 @@ EndConforms(s1, o) ==
   /\ ~IsPanic(o.res) /\ OutcomeEq(s1.res, o.res)
 
 None == [st |-> "none"]
-Init == l = 1 /\ ri = 1 /\ ph = "start" /\ s = None /\ steps = 0 /\ evals = 0 /\ drifts = 0
+\* which arms of the machines the replayed steps went through (vacuity accounting): by node type, plus the steps that
+\* took a short-circuit jump / climbed (pc moved by more than the node's own width) and the steps that ended the run
+Arms == {"c", "v", "f", "o", "if", "fi", "ev", "jump", "end", "finish"}
+ArmsOf(prog, s1, s2) ==
+  IF s1.pc > Len(prog.nodes) THEN {"finish"}
+  ELSE LET ty == prog.nodes[s1.pc].ty IN
+       {ty} \cup (IF s2.st = "run" /\ s2.pc > s1.pc + (IF ty = "f" THEN 3 ELSE 1) THEN {"jump"} ELSE {})
+            \cup (IF s2.st # "run" THEN {"end"} ELSE {})
+Init == l = 1 /\ ri = 1 /\ ph = "start" /\ s = None /\ steps = 0 /\ evals = 0 /\ drifts = 0 /\ cov = [a \in Arms |-> 0]
 
 \* what comes after the evaluation (l, ri, ph)
 Advance(r) ==
@@ -76,10 +84,10 @@ Advance(r) ==
   ELSE /\ ph' = "start" /\ ri' = 1 /\ s' = None /\ l' = l + 1
 
 SkipRecord == /\ l <= Len(Trace) /\ ph = "start" /\ ~Usable(Trace[l])
-              /\ l' = l + 1 /\ UNCHANGED <<ri, ph, s, steps, evals, drifts>>
+              /\ l' = l + 1 /\ UNCHANGED <<ri, ph, s, steps, evals, drifts, cov>>
 Begin == /\ l <= Len(Trace) /\ ph = "start" /\ Usable(Trace[l])
          /\ ph' = "eval" /\ ri' = 1 /\ s' = InitState(Trace[l].on.prog, 0)
-         /\ UNCHANGED <<l, steps, evals, drifts>>
+         /\ UNCHANGED <<l, steps, evals, drifts, cov>>
 MStep ==
   /\ l <= Len(Trace) /\ ph \in {"eval", "try"} /\ s.st = "run"
   /\ LET r == Trace[l]
@@ -88,9 +96,10 @@ MStep ==
                ELSE TryNext(r.on.prog, Env(r), ToSet(r.runs[ri].av), s, TRUE, TRUE)
      IN IF StepConforms(s, s2, o)
         THEN /\ s' = s2 /\ steps' = steps + 1 /\ UNCHANGED <<l, ri, ph, evals, drifts>>
+             /\ cov' = [a \in Arms |-> IF a \in ArmsOf(r.on.prog, s, s2) THEN cov[a] + 1 ELSE cov[a]]
         ELSE /\ PrintT(<<"DRIFT", r.id, ri, "step-trace:" \o ph>>)
              /\ PrintT(<<"N", "step_trace_longest_prefix_before_drift", Len(s.out)>>)
-             /\ drifts' = drifts + 1 /\ evals' = evals + 1 /\ steps' = steps
+             /\ drifts' = drifts + 1 /\ evals' = evals + 1 /\ steps' = steps /\ cov' = cov
              /\ Advance(r)
 EndEval ==
   /\ l <= Len(Trace) /\ ph \in {"eval", "try"} /\ s.st # "run"
@@ -98,7 +107,7 @@ EndEval ==
          o == Obs(r)
      IN /\ IF EndConforms(s, o) THEN drifts' = drifts
            ELSE /\ PrintT(<<"DRIFT", r.id, ri, "step-trace-end:" \o ph>>) /\ drifts' = drifts + 1
-        /\ evals' = evals + 1 /\ steps' = steps
+        /\ evals' = evals + 1 /\ steps' = steps /\ cov' = cov
         /\ Advance(r)
 Next == SkipRecord \/ Begin \/ MStep \/ EndEval
 Spec == Init /\ [][Next]_vars
@@ -110,5 +119,6 @@ PcMonotone == [][(s.st = "run" /\ s'.st = "run" /\ ph' = ph /\ ri' = ri /\ l' = 
 Done == l = Len(Trace) + 1 =>
           /\ PrintT(<<"N", "step_trace_machine_steps", steps>>)
           /\ PrintT(<<"N", "step_trace_evaluations", evals>>)
+          /\ \A a \in Arms : PrintT(<<"N", "step_trace_steps_through_arm_" \o a, cov[a]>>)
           /\ PrintT(<<"SUMMARY", l - 1, 0, 0, 0, evals, drifts>>)
 =============================================================================
